@@ -2,6 +2,7 @@ CONSTANTS
   STAR = "*"
   QM = "?"
   COLON = ":"
+  Fold <- MCFold
   Dev = {"MatchWithQuery"}
   Apps <- MCApps
   Reqs <- MCReqs
